@@ -118,6 +118,49 @@ def r15_3(ctx):
     ctx.end()
 
 
+def r15_5(ctx):
+    """A paused-and-resumed run re-enters the loop with fresh locals: whatever one iteration hands to the next must live
+    in the model (and so be saved), never in a local variable of simulate()."""
+    ctx.begin("R15.5", "the step loop carries no local state from one iteration to the next", floor=1)
+    f, loop = sim_loop(ctx)
+    # names bound by comprehensions / lambdas are scoped to them: not locals of the loop
+    scoped = set()
+    for n in ast.walk(loop):
+        if isinstance(n, (ast.ListComp, ast.SetComp, ast.GeneratorExp, ast.DictComp)):
+            bound = {x.id for g in n.generators for x in ast.walk(g.target) if isinstance(x, ast.Name)}
+            for x in ast.walk(n):
+                if isinstance(x, ast.Name) and x.id in bound:
+                    scoped.add(id(x))
+        elif isinstance(n, ast.Lambda):
+            bound = {a.arg for a in n.args.args}
+            for x in ast.walk(n):
+                if isinstance(x, ast.Name) and x.id in bound:
+                    scoped.add(id(x))
+    assigned = {}
+    for n in ast.walk(loop):
+        if isinstance(n, ast.Name) and isinstance(n.ctx, ast.Store) and id(n) not in scoped:
+            assigned.setdefault(n.id, []).append(n)
+    # first occurrence of each assigned name in source order inside the loop body must be a store
+    occ = {}
+    for n in ast.walk(loop):
+        if isinstance(n, ast.Name) and n.id in assigned and id(n) not in scoped:
+            key = (n.lineno, n.col_offset)
+            if n.id not in occ or key < occ[n.id][0]:
+                occ[n.id] = (key, n)
+    ctx.instance(construct(f, "loop-locals"), cells=len(assigned), sample={"assigned_in_loop": sorted(assigned)})
+    for name, (key, n) in sorted(occ.items()):
+        if isinstance(n.ctx, ast.Load):
+            ctx.violation(construct(f, f"loop-carried-local:{name}"), f.loc(n),
+                          f"local `{name}` is read in the step loop before it is assigned in the same iteration, and assigned later in the loop: its value travels from step to "
+                          f"step outside the model, so a run paused at max_time and resumed (or saved and loaded) continues with a different value than the uninterrupted run")
+        else:
+            # an augmented assignment reads the previous iteration's value as well
+            par = [a for a in ast.walk(loop) if isinstance(a, ast.AugAssign) and a.target is n]
+            if par:
+                ctx.violation(construct(f, f"loop-carried-local:{name}"), f.loc(n), f"local `{name}` is accumulated across iterations of the step loop (`{ast.unparse(par[0])[:50]}`)")
+    ctx.end()
+
+
 def r15_4(ctx):
     ctx.begin("R15.4", "everything a step writes, and every log, is saved and passed back on load", floor=25)
     J = JsonTables(ctx)
@@ -153,3 +196,4 @@ def run(ctx):
     r15_2(ctx)
     r15_3(ctx)
     r15_4(ctx)
+    r15_5(ctx)
